@@ -23,9 +23,11 @@ def beqOpt : Option Value → Option Value → Bool
     args: v p q x prune | v' (after insert) g1=get v' p, g2=get v q, g3=get v' q,
           r=removed by remove(v,p,prune), g0=get v p, sortedAfter flags are computed here. -/
 def oracle (v : Value) (p q : Path) (x : Value) (v' : Value)
-    (g1 g2 g3 r g0 : Option Value) (vr : Value) : String :=
+    (g1 g2 g3 r g0 : Option Value) (vr : Value) (ip gr : Option Value) : String :=
   if !beqOpt g1 (some x) then "fails get_insert:-"
   else if !beqOpt r g0 then "fails remove_returns_get:-"
+  else if !beqOpt ip g0 then "fails insert_returns_get:-"
+  else if C18.fieldsOnly p && !p.isEmpty && gr.isSome then "fails get_after_remove:-"
   else if !(Value.Sorted v' && Value.Sorted vr) then "fails sorted:-"
   else if g0.isNone && !(vr == v) then "fails remove_absent_unchanged:-"
   else if C18.diverge p q && !beqOpt g3 g2 then
@@ -53,7 +55,7 @@ def handle (op : String) (args : List String) : Option String :=
     let pr ← boolOf pr
     let (r, v') := v.remove p pr
     pure (showOptValue r ++ "\t" ++ showValue v')
-  | "o.c18", [v, p, q, x, _prune, "|", v', g1, g2, g3, r, g0, vr] => do
+  | "o.c18", [v, p, q, x, _prune, "|", v', g1, g2, g3, r, g0, vr, ip, gr] => do
     let v ← valueOfString v
     let p ← pathOfString p
     let q ← pathOfString q
@@ -65,7 +67,9 @@ def handle (op : String) (args : List String) : Option String :=
     let r ← optValueOfString r
     let g0 ← optValueOfString g0
     let vr ← valueOfString vr
-    pure (oracle v p q x v' g1 g2 g3 r g0 vr)
+    let ip ← optValueOfString ip
+    let gr ← optValueOfString gr
+    pure (oracle v p q x v' g1 g2 g3 r g0 vr ip gr)
   | _, _ => none
 
 end Driver.C18
